@@ -2,7 +2,8 @@
 
 use super::broker::{rand_bytes, rand_topic};
 use super::util::{PubLine, filter_text, pub_props};
-use super::{CfgSpec, ConnSpec, Drv, Out, Rng, stride};
+use super::fam_behind::until_write;
+use super::{CfgSpec, ConnSpec, Drv, Out, Rng, stride, wire};
 use crate::parse::hex;
 
 #[derive(Debug, Clone)]
@@ -197,6 +198,13 @@ pub(super) fn scenarios(rng: &mut Rng) -> Vec<(&'static str, Vec<Step>)> {
 }
 
 pub fn sched(out: &mut Out, count: u64) {
+    // Timed partial writes take the last eighth of the budget.
+    let n_wt = (count / 8).min(WT_GRID as u64);
+    let count = count - n_wt;
+    for (j, g) in stride(WT_GRID, n_wt as usize).into_iter().enumerate() {
+        let (d, tags, _) = wtimed_program(out.rng(5000 + g as u64), g, None);
+        out.emit(count + j as u64, "", &format!("scenario=timed-partial-write {tags}"), &d);
+    }
     // Same random content for every variant of a scenario: the PRNG is keyed by the scenario.
     let list = scenarios(&mut out.rng(u64::MAX));
     let mut priority: Vec<(usize, Mode)> = Vec::new();
@@ -344,6 +352,23 @@ fn twin_prefix(rng: Rng, prefix: &[Step]) -> Drv {
 
 pub fn twin_cancel(out: &mut Out, count: u64) {
     let mut twin = 0u64;
+    // Cancel at the flush await: PINGREQ with the keep-alive due, PUBACK, PUBREL, PUBLISH.
+    let flush_kinds: [(&str, u16); 7] = [
+        ("ping-flush", 1), ("ping-flush", 2), ("ping-flush", 3), ("ping-flush", 4),
+        ("puback-flush", 0), ("pubrel-flush", 0), ("publish-flush", 0),
+    ];
+    for (kind, ka) in flush_kinds {
+        if twin >= count {
+            return;
+        }
+        let name = out.base(twin);
+        for (role, cancel) in [("a", false), ("b", true)] {
+            let d = flush_twin(out.rng(7000 + twin), kind, ka, cancel);
+            let tags = format!("twin={name} role={role} enqueued=0 kind={kind} ka={ka}");
+            out.emit(twin, &format!(".{role}"), &tags, &d);
+        }
+        twin += 1;
+    }
     for round in 0u64.. {
         let ops = twin_ops(&mut out.rng(round));
         let mut progressed = false;
@@ -621,6 +646,37 @@ pub fn twin_chunk(out: &mut Out, count: u64) {
     const SHORT_LENS: [usize; 9] = [4, 6, 8, 10, 12, 5, 7, 9, 11];
     for twin in 0..count {
         let name = out.base(twin);
+        if twin % 8 == 5 {
+            // Write-side timed twin: partial write, tick past the keep-alive send deadline.
+            let g = (twin / 8 * 13) as usize % WT_GRID;
+            let (b, tags, tick) = wtimed_program(out.rng(twin), g, None);
+            let (a, _, _) = wtimed_program(out.rng(twin), g, Some(tick));
+            out.emit(twin, ".a", &format!("twin={name} role=a wtimed=1 {tags}"), &a);
+            drop(a);
+            out.emit(twin, ".b", &format!("twin={name} role=b wtimed=1 {tags}"), &b);
+            continue;
+        }
+        if twin % 8 == 7 && twin / 8 < 3 {
+            // Zero-length packets followed by another packet: one and two cuts everywhere.
+            let which = (twin / 8) as usize;
+            let n = zerolen_stream(which).len();
+            let a = zerolen_program(out.rng(twin), which, &[n]);
+            out.emit(twin, ".a", &format!("twin={name} role=a zerolen=1 stream={n}"), &a);
+            drop(a);
+            let mut k = 0;
+            for c1 in 1..n {
+                for c2 in c1..n {
+                    // c2 == c1: a single cut.
+                    let cuts: Vec<usize> =
+                        if c2 == c1 { vec![c1, n - c1] } else { vec![c1, c2 - c1, n - c2] };
+                    let b = zerolen_program(out.rng(twin), which, &cuts);
+                    let tags = format!("twin={name} role=b zerolen=1 stream={n} cuts={c1},{c2}");
+                    out.emit(twin, &format!(".b{k}"), &tags, &b);
+                    k += 1;
+                }
+            }
+            continue;
+        }
         if twin % 8 == 3 {
             let (a, tags) = timed_program(out.rng(twin), false);
             out.emit(twin, ".a", &format!("twin={name} role=a {tags}"), &a);
@@ -659,4 +715,124 @@ pub fn twin_chunk(out: &mut Out, count: u64) {
             }
         }
     }
+}
+
+// -------------------------------------------------------------------------------------------
+// Timed partial writes, flush twins, zero-length packets.
+
+/// operation (3) x accepted bytes (1, 4, len-1) x overshoot (0, 1 us, 250 ms) x keep-alive (1..4 s).
+pub(super) const WT_GRID: usize = 3 * 3 * 3 * 4;
+
+/// A packet whose write is accepted only partially, then a `tick` past the keep-alive send
+/// deadline, then `go` and a drain. With `whole` the same tick follows a whole write (a-run).
+/// Returns the program, its tags and the tick used.
+pub(super) fn wtimed_program(rng: Rng, g: usize, whole: Option<u64>) -> (Drv, String, u64) {
+    let (op, k_sel, over, ka) = (g % 3, g / 3 % 3, [0u64, 1, 250_000][g / 9 % 3], 1 + (g / 27) as u16);
+    let mut cfg = CfgSpec::basic(128, 512);
+    cfg.ka = ka;
+    let mut d = Drv::new(&cfg, rng);
+    d.split_rx = false;
+    d.connect(&ConnSpec::plain());
+    let name = ["publish1", "subscribe", "pubrel"][op];
+    match op {
+        0 => d.x(&PubLine::simple(1, "w/t", b"timed").text()),
+        1 => d.x(&format!("subscribe - {}", filter_text("w/#", 1, false, false, 0))),
+        _ => {
+            d.x(&PubLine::simple(2, "w", b"q2").text());
+            d.go();
+            d.deliver_all();
+            d.x("poll");
+            until_write(&mut d);
+        }
+    }
+    let len = [15usize, 11, 5][op];
+    let k = [1, 4, len - 1][k_sel];
+    let deadline = d.interp().verif_state().next_ping_us.unwrap_or(0) + over;
+    let tick = match whole {
+        Some(t) => {
+            d.go();
+            d.tick(t);
+            t
+        }
+        None => {
+            d.x(&format!("d {k}"));
+            let now = d.interp().now_us();
+            let t = deadline.saturating_sub(now).max(1);
+            d.tick(t);
+            t
+        }
+    };
+    d.go();
+    d.drain();
+    (d, format!("op={name} accepted={k} over={over} ka={ka}"), tick)
+}
+
+fn flush_twin(rng: Rng, kind: &str, ka: u16, cancel: bool) -> Drv {
+    let mut cfg = CfgSpec::basic(128, 512);
+    cfg.ka = ka;
+    let mut d = Drv::new(&cfg, rng);
+    d.split_rx = false;
+    d.connect(&ConnSpec::plain());
+    match kind {
+        "ping-flush" => {
+            d.x("poll");
+            let np = d.interp().verif_state().next_ping_us.unwrap_or(0);
+            d.tick_to(np);
+        }
+        "puback-flush" => {
+            let p = wire::publish(b"in", Some(3), 1, false, false, &[], b"x");
+            d.send_raw("publish1", &p);
+            d.x("poll");
+            d.go();
+            d.x("poll");
+        }
+        "pubrel-flush" => {
+            d.x(&PubLine::simple(2, "f", b"2").text());
+            d.go();
+            d.deliver_all();
+            d.x("poll");
+            until_write(&mut d);
+        }
+        _ => d.x(&PubLine::simple(1, "f", b"1").text()),
+    }
+    // The whole packet is accepted: its entry is in the flush state, the flush is pending.
+    d.x("d 250");
+    if cancel {
+        d.x("cancel");
+        d.x("poll");
+    }
+    d.go();
+    d.drain();
+    d
+}
+
+fn zerolen_stream(which: usize) -> Vec<u8> {
+    let q1 = wire::publish(b"z", Some(5), 1, false, false, &[], b"one");
+    let q0 = wire::publish(b"z", None, 0, false, false, &[], b"0");
+    let q2 = wire::publish(b"z", Some(6), 2, false, false, &[], b"two");
+    match which {
+        0 => [wire::pingresp(), q1].concat(),
+        1 => [wire::pingresp(), wire::pingresp(), wire::suback(0x90, 1, &[1])].concat(),
+        _ => [q0, wire::pingresp(), q2].concat(),
+    }
+}
+
+fn zerolen_program(rng: Rng, which: usize, cuts: &[usize]) -> Drv {
+    let mut d = setup(rng, 128, 512);
+    if which == 1 {
+        d.x(&format!("subscribe - {}", filter_text("z", 1, false, false, 0)));
+        d.go();
+        while !d.broker.owed().is_empty() {
+            d.broker.deliver(0); // the SUBACK is part of the crafted stream
+        }
+    }
+    if which == 2 {
+        let q2 = wire::publish(b"z", Some(6), 2, false, false, &[], b"two");
+        d.broker.adopt_in2(6, q2);
+    }
+    let stream = zerolen_stream(which);
+    *d.stats.broker.entry("pingresp".to_string()).or_insert(0) += 1;
+    consume(&mut d, &stream, cuts, None);
+    d.drain();
+    d
 }
